@@ -13,6 +13,7 @@ import ast
 from typing import Dict, List, Optional, Set, Tuple
 
 from ..model import Repo, ClassInfo, FuncInfo, AnalysisError, norm, parent, ancestors, enclosing_stmt, const_str
+from ..exprs import path_conditions
 from ..report import Ctx, RuleResult
 from ..exprs import linear, lin_str
 
@@ -390,6 +391,47 @@ def run_visit_guard(ctx: Ctx) -> RuleResult:
                         'object used for a second forest can hit entries of the first (ids are recycled after garbage collection) -- wrong, '
                         'missing or duplicated subtrees' % attr, construct='id-table-not-renewed:' + attr, module=ftp.module)
     res.require_instances(n_tab, 1, 'id-keyed tables of ForestToParseTree')
+    # the helper handed to on_cycle users: the slice starts at the node that closes the cycle (the position the search stopped at)
+    gc_ = repo.func('lark.parsers.earley_forest:ForestVisitor.get_cycle_in_path')
+    pn_ = gc_.positional_names()
+    rets = [r for r in gc_.body_nodes() if isinstance(r, ast.Return) and r.value is not None]
+    whiles = [w for w in gc_.body_nodes() if isinstance(w, ast.While)]
+    ok = len(rets) == 1 and len(whiles) == 1 and len(pn_) >= 2
+    why = 'shape not understood'
+    if ok:
+        from ..exprs import linear, lin_str
+        idx = [x.slice for x in ast.walk(whiles[0].test) if isinstance(x, ast.Subscript) and norm(x.value) == pn_[1]]
+        rv = rets[0].value
+        ok = len(idx) == 1 and isinstance(rv, ast.Subscript) and norm(rv.value) == pn_[1] and isinstance(rv.slice, ast.Slice) \
+            and rv.slice.upper is None and rv.slice.step is None and rv.slice.lower is not None \
+            and linear(rv.slice.lower) is not None and linear(rv.slice.lower) == linear(idx[0])
+        why = 'the search stops at %s[%s], the slice returned is %s' % (pn_[1], norm(idx[0]) if idx else '?', norm(rv))
+    res.ob('%s %s' % (gc_.loc(), gc_.qual), 'get_cycle_in_path returns the path from the node that closes the cycle onwards', ok)
+    if not ok:
+        res.finding(gc_, rets[0] if rets else gc_.node, 'get_cycle_in_path does not return the path from the found node onwards (%s): the cycle handed '
+                    'to on_cycle users lacks the node that closes it, or holds nodes outside the cycle' % why, construct='cycle-slice')
+    # a packed node is iterated left child first (children of a derivation keep input order)
+    pk = repo.cls('lark.parsers.earley_forest:PackedNode')
+    it_ = pk.methods.get('__iter__')
+    if it_ is not None:
+        ys = [norm(y.value) for y in it_.body_nodes() if isinstance(y, ast.Yield) and y.value is not None]
+        sn_ = it_.self_name() or 'self'
+        ok = ys == ['%s.left' % sn_, '%s.right' % sn_]
+        res.ob('%s %s' % (it_.loc(), it_.qual), 'PackedNode.__iter__ yields the left child, then the right one', ok)
+        if not ok:
+            res.finding(it_, it_.node, 'PackedNode.__iter__ yields %s: visitors that return iter(node) walk a derivation right to left, children come '
+                        'out in reverse input order' % ys, construct='packed-iter-order')
+    ch_ = pk.methods.get('children')
+    if ch_ is not None:
+        sn_ = ch_.self_name() or 'self'
+        refs = sorted(((a.lineno, a.col_offset, a.attr) for a in ch_.body_nodes() if isinstance(a, ast.Attribute) and a.attr in ('left', 'right')
+                       and norm(a.value) == sn_ and isinstance(a.ctx, ast.Load) and not isinstance(parent(a), ast.Compare)))
+        order = [r[2] for r in refs]
+        ok = 'left' in order and 'right' in order and order.index('left') < order.index('right') and \
+            not any(isinstance(c, ast.Call) and norm(c.func) in ('reversed', 'sorted') for c in ch_.body_nodes())
+        res.ob('%s %s' % (ch_.loc(), ch_.qual), 'PackedNode.children lists left before right', ok)
+        if not ok:
+            res.finding(ch_, ch_.node, 'PackedNode.children does not list [left, right] in that order', construct='packed-children-order')
     return res
 
 
@@ -527,6 +569,81 @@ def run_scan_buffer(ctx: Ctx) -> RuleResult:
     res.ob('%s %s' % (x.loc(), x.qual), 'every item of the scan buffer is carried over an ignored match (to the end of that match)', ok)
     if not ok:
         res.finding(x, x.node, 'the dynamic scanner does not carry the whole scan buffer over ignored text', construct='carry-over')
+    # what goes through delayed_matches lands in the next Earley set *before* the completer runs there.  That is right for scan-buffer
+    # items; a COMPLETED item carried that way is completed a second time, and every derivation through it shows up twice (the copy of
+    # its node made for the new position and the one the completer builds are different nodes).  Completed start items -- needed only
+    # where the parse may end -- therefore travel in their own table and join their column after predict_and_complete has run for it.
+    pf = repo.func('lark.parsers.xearley:Parser._parse')
+    dm_names = {b_['dm'] for _c, b_ in carry}
+    bad_carry = []
+    for c in x.body_nodes():
+        if isinstance(c, ast.Call) and isinstance(c.func, ast.Attribute) and c.func.attr in ('extend', 'append') \
+                and isinstance(c.func.value, ast.Subscript) and norm(c.func.value.value) in dm_names:
+            for comp in [y for a_ in c.args for y in ast.walk(a_) if isinstance(y, (ast.ListComp, ast.GeneratorExp))]:
+                src = norm(comp.generators[0].iter)
+                if src != buf and not src.startswith('self.Set(' + buf):
+                    bad_carry.append((c, src))
+    ok = not bad_carry
+    n += 1
+    res.ob('%s %s' % (x.loc(), x.qual), 'only scan-buffer items are carried into the next Earley set through delayed_matches', ok)
+    if not ok:
+        res.finding(x, bad_carry[0][0], 'items of %s are carried over ignored text through delayed_matches: they enter the next Earley set before the '
+                    'completer runs and are completed again there -- with ambiguity=\'explicit\' (or \'forest\') every derivation through them '
+                    'appears twice, and an unambiguous input is reported ambiguous' % bad_carry[0][1], construct='carry-completed-twice')
+    else:
+        # the dedicated table: filled from complete start items spanning the input so far, emptied right after each predict_and_complete
+        # the filling site: a comprehension over columns[...] handed to extend/append, or a loop over columns[...] that appends its items
+        fills = []
+        for c in x.body_nodes():
+            if not (isinstance(c, ast.Call) and isinstance(c.func, ast.Attribute) and c.func.attr in ('extend', 'append')
+                    and isinstance(c.func.value, ast.Subscript) and norm(c.func.value.value) not in dm_names):
+                continue
+            comp = next((y for a_ in c.args for y in ast.walk(a_) if isinstance(y, (ast.ListComp, ast.GeneratorExp))
+                         and norm(y.generators[0].iter).startswith('columns[')), None)
+            if comp is not None:
+                tests_ = set()
+                for i_ in comp.generators[0].ifs:
+                    tests_ |= {norm(t) for t in (i_.values if isinstance(i_, ast.BoolOp) and isinstance(i_.op, ast.And) else [i_])}
+                fills.append((c, norm(comp.generators[0].target), tests_))
+                continue
+            loop_ = next((l for l in ancestors(c) if isinstance(l, ast.For) and norm(l.iter).startswith('columns[')), None)
+            if loop_ is not None and c.args and norm(c.args[0]) == norm(loop_.target):
+                tests_ = set()
+                for t, pol in path_conditions(enclosing_stmt(c)):
+                    if pol and any(isinstance(n_, ast.Name) and n_.id == norm(loop_.target) for n_ in ast.walk(t)):
+                        tests_ |= {norm(v) for v in (t.values if isinstance(t, ast.BoolOp) and isinstance(t.op, ast.And) else [t])}
+                fills.append((c, norm(loop_.target), tests_))
+        ok2 = len(fills) == 1
+        why = 'completed start items are not carried at all (trailing ignored text would be rejected)'
+        if ok2:
+            fill_call, itv, tests = fills[0]
+            need = {'%s.is_complete' % itv, '%s.s == start_symbol' % itv, '%s.start == 0' % itv}
+            ok2 = need <= tests
+            why = 'the carried items are filtered by %s, not by %s' % (sorted(tests), sorted(need))
+            fills = [fill_call]
+            table = norm(fills[0].func.value.value)
+            if ok2:
+                # consumer: a local function of _parse reading that table, called after every predict_and_complete call
+                cons = [g_ for g_ in pf.nested.values() if any(isinstance(y, ast.Name) and y.id == table for y in ast.walk(g_.node)) and g_ is not x]
+                ok2 = len(cons) == 1
+                why = 'nothing reads the table %s' % table
+                if ok2:
+                    pcs = [st for st in ast.walk(pf.node) if isinstance(st, ast.Expr) and isinstance(st.value, ast.Call)
+                           and norm(st.value.func).endswith('.predict_and_complete')]
+                    ok2 = bool(pcs)
+                    for st in pcs:
+                        blk = parent(st)
+                        body = next((b for b in (getattr(blk, 'body', []), getattr(blk, 'orelse', [])) if st in b), None)
+                        nxt = body[body.index(st) + 1] if body is not None and body.index(st) + 1 < len(body) else None
+                        if not (isinstance(nxt, ast.Expr) and isinstance(nxt.value, ast.Call) and norm(nxt.value.func) == cons[0].name
+                                and nxt.value.args and norm(nxt.value.args[0]) == norm(st.value.args[0])):
+                            ok2 = False
+                            why = 'the carried items do not join their column right after predict_and_complete(%s, ...)' % norm(st.value.args[0])
+        n += 1
+        res.ob('%s %s' % (x.loc(), x.qual), 'completed start items spanning the input are carried in their own table and join their column after the completer ran', ok2)
+        if not ok2:
+            res.finding(x, fills[0] if fills else x.node, 'carrying the completed start symbol over trailing ignored text changed shape: %s' % why,
+                        construct='carry-solutions')
     # dynamic_complete: every proper prefix of the longest match is tried (no early exit), and every match -- full or prefix -- is
     # filed under the position where *that* match ends
     pl = [l for l in x.body_nodes() if isinstance(l, ast.For) and isinstance(l.iter, ast.Call) and norm(l.iter.func) == 'range'
